@@ -302,17 +302,18 @@ impl VisitMut for ImplItemResolver {
     fn visit_impl_item_fn_mut(&mut self, node: &mut syn::ImplItemFn) {
         let self_as_helper_trait = &self.self_as_helper_trait;
 
-        let syn::Signature {
-            ident,
-            inputs,
-            variadic,
-            ..
-        } = &node.sig;
+        helper_trait::name_fn_arg_patterns(&mut node.sig);
 
-        let inputs = inputs.iter().map(|input| match input {
-            syn::FnArg::Receiver(_) => parse_quote!(self),
-            syn::FnArg::Typed(arg) => arg.pat.clone(),
+        let inputs = node.sig.inputs.iter().map(|input| -> syn::Pat {
+            match input {
+                syn::FnArg::Receiver(_) => parse_quote!(self),
+                syn::FnArg::Typed(arg) => (*arg.pat).clone(),
+            }
         });
+
+        let syn::Signature {
+            ident, variadic, ..
+        } = &node.sig;
 
         node.block = parse_quote!({
             #self_as_helper_trait::#ident(#(#inputs,)* #variadic)
